@@ -423,6 +423,132 @@ def check_naming_connection(case):
     return None
 
 
+MEMBER_CASES = ("coincide/leaf-vs-nested", "coincide/two-nestings", "coincide/three", "coincide/leaf-vs-nested-reversed",
+                "reassigned/leaf-to-sub", "reassigned/sub-to-leaf", "reassigned/leaf-to-wider-leaf", "reassigned/sub-to-other-sub",
+                "reassigned/twice")
+
+
+def check_members(kind):
+    """one scalar port per leaf of the bundle AS IT STANDS when it is used: leaves whose underscore-joined paths spell
+    one name (`a_x` next to `a.x`) stay two ports; a bundle definition in which a name was re-assigned to a member of
+    another kind (or width) before use flattens to its final members only - and a parent connecting exactly those
+    members, through the whole bundle and through an anonymous bundle, gets every leaf where it belongs"""
+    import hdl21 as h
+    from rtc.meaning import meaning, package_meaning, compare, InvalidPackage, Unsupported as OracleUnsupported
+    w = {"case": repr(("members", kind))}
+
+    def sub(*leaves):
+        S = h.Bundle(name="MS" + "".join(n for n, _ in leaves))
+        for n, wd in leaves:
+            S.add(h.Signal(name=n, width=wd))
+        return S
+    B = h.Bundle(name="MB")
+    if kind.startswith("coincide/"):
+        order = {"coincide/leaf-vs-nested": ["a_x", "a", "z"], "coincide/leaf-vs-nested-reversed": ["a", "a_x", "z"],
+                 "coincide/two-nestings": ["a", "a_b", "z"], "coincide/three": ["a_b_c", "a", "a_b"]}[kind]
+        for nm in order:
+            if nm == "a_x":
+                B.add(h.Output(name="a_x", width=2))
+            elif nm == "z":
+                B.add(h.Input(name="z", width=3))
+            elif nm == "a_b_c":
+                B.add(h.Signal(name="a_b_c", width=3))
+            elif nm == "a":
+                B.add(sub(("x", 1))() if "leaf-vs-nested" in kind else sub(("b_c", 1))(), name="a")
+            else:
+                B.add(sub(("c", 2))(), name="a_b")
+    else:
+        B.x = h.Output(width=2)
+        B.y = h.Input()
+        if kind == "reassigned/leaf-to-sub":
+            B.x = sub(("s", 1))()
+        elif kind == "reassigned/sub-to-leaf":
+            B.x = sub(("s", 1))()
+            B.x = h.Signal(width=3)
+        elif kind == "reassigned/leaf-to-wider-leaf":
+            B.x = h.Input(width=4)
+        elif kind == "reassigned/sub-to-other-sub":
+            B.x = sub(("s", 1))()
+            B.x = sub(("t", 2), ("s", 3))()
+        else:
+            B.x = sub(("s", 1))()
+            B.x = h.Signal(width=3)
+            B.x = sub(("q", 2))()
+            B.y = sub(("q", 1))()
+
+    def leaves(bundle, prefix=()):
+        for n, sgn in bundle.signals.items():
+            if bundle.namespace.get(n) is sgn:
+                yield prefix + (n,), sgn
+        for n, bi in bundle.bundles.items():
+            if bundle.namespace.get(n) is bi:
+                yield from leaves(bi.of, prefix + (n,))
+    # the members as the NAMESPACE has them (the definition as it stands)
+    final = []
+    for n, v in B.namespace.items():
+        if isinstance(v, h.Signal):
+            final.append(((n,), v))
+        else:
+            final.extend(((n,) + p_, s_) for p_, s_ in leaves(v.of))
+
+    def tap(width):
+        return h.ExternalModule(name=f"MTap{width}", port_list=[h.Inout(name="a", width=width)], desc="", domain="c10m")
+
+    def ref(bi, path):
+        cur = bi
+        for seg in path:
+            cur = getattr(cur, seg)
+        return cur
+    inner = h.Module(name="MInner")
+    inner.b = B(port=True)
+    for p_, s_ in final:
+        inner.add(tap(s_.width)()(a=ref(inner.b, p_)), name="c_" + "__".join(p_))
+    for variant in ("whole", "anon"):
+        outer = h.Module(name="MOuter")
+        outer.ob = B()
+        for p_, s_ in final:
+            outer.add(tap(s_.width)()(a=ref(outer.ob, p_)), name="p_" + "__".join(p_))
+        if variant == "whole":
+            outer.i = inner(b=outer.ob)
+        else:
+            outer.i = inner(b=h.AnonymousBundle(**{n: getattr(outer.ob, n) for n in reversed(list(B.namespace))}))
+        try:
+            want = meaning(outer)
+        except OracleUnsupported as e:
+            return ("members.oracle-unsupported", f"{kind}: {e}", w)
+        except Exception as e:
+            # the design is written from the definition's namespace; if it reads differently through the definition's
+            # member views (what references and the oracle walk), the definition itself is incoherent
+            return ("members.definition-incoherent", f"{kind}: the bundle's namespace and its member views disagree: {str(e)[:160]}", w)
+        try:
+            pkg = h.to_proto(outer)
+        except Exception as e:
+            return (f"members.raises.{type(e).__name__}", f"{kind}/{variant}: a bundle connection listing exactly the bundle's members "
+                                                          f"is refused: {type(e).__name__}: {str(e)[-140:]}", w)
+        pin = [m_ for m_ in pkg.modules if m_.name.endswith("MInner")][0]
+        widths = {s_.name: s_.width for s_ in pin.signals}
+        got = sorted((widths[p_.signal], p_.direction) for p_ in pin.ports)
+        import vlsir.circuit_pb2 as vckt
+        dirs = {"INPUT": vckt.Port.Direction.INPUT, "OUTPUT": vckt.Port.Direction.OUTPUT, "INOUT": vckt.Port.Direction.INOUT,
+                "NONE": vckt.Port.Direction.NONE}
+        exp = sorted((s_.width, dirs[s_.direction.name] if s_.vis.name == "PORT" else dirs["NONE"]) for _, s_ in final)
+        if len(pin.ports) != len(final) or got != exp:
+            return ("members.one-port-per-leaf", f"{kind}: the bundle has {len(final)} leaves {[('.'.join(p_), s_.width) for p_, s_ in final]}, "
+                                                 f"the module exports ports {[(p_.signal, widths[p_.signal]) for p_ in pin.ports]}", w)
+        try:
+            diff = compare(want, package_meaning(pkg, outer.name))
+        except InvalidPackage as e:
+            diff = [f"the exported package is not a circuit: {e}"]
+        if diff:
+            return ("connection.members-disagree", f"{kind}/{variant}: {diff[0][:260]}", w)
+        inner2 = h.Module(name="MInner")          # (a fresh child for the second variant)
+        inner2.b = B(port=True)
+        for p_, s_ in final:
+            inner2.add(tap(s_.width)()(a=ref(inner2.b, p_)), name="c_" + "__".join(p_))
+        inner = inner2
+    return None
+
+
 def flipped_obligations(ctx):
     """PortDir.flipped by pyvc + the involution lemma over its contract."""
     import z3
@@ -509,6 +635,12 @@ def run(ctx):
                          "listing the members in reversed / sorted order, and member by member; leaf-level partition "
                          "compared with the reference interpreter; flat, nested, flipped and random definitions",
                     bound="depth<=2", key_of=repr, nontrivial=lambda c: c[1] != "whole")
+    ctx.run_bounded("bundle-members-as-they-stand", list(MEMBER_CASES), check_members,
+                    rule="bundles whose leaves' underscore-joined paths spell one name (a_x / a.x, a.b_c / a_b.c, three at once) "
+                         "and bundle definitions in which a name was re-assigned to a member of another kind or width before "
+                         "use: one exported port per leaf of the definition as it stands (widths, directions), and a parent "
+                         "connecting the whole bundle / an anonymous bundle of its members: leaf-level partition == reference",
+                    bound="9 definitions x 2 connections", key_of=repr)
     ctx.run_bounded("bundle-connections-under-name-pressure", naming_conn_cases(), check_naming_connection,
                     rule="whole bundle instances handed over as members of an anonymous bundle under other names (crossed, "
                          "renamed, nested); a child whose flattened leaves want one name (b.c.x / b_c.x / a scalar b_c_x) "
@@ -524,6 +656,6 @@ def replay(payload):
     if not c:
         return 2
     case = eval(c)
-    r = check_connection(case[1:]) if case[0] == "conn" else check_naming_connection(case) if case[0] == "naming" else check_tree(case)
+    r = check_connection(case[1:]) if case[0] == "conn" else check_naming_connection(case) if case[0] == "naming" else check_members(case[1]) if case[0] == "members" else check_tree(case)
     print("replay:", r)
     return 1 if r else 0
